@@ -26,6 +26,12 @@ def gen_case(rng, i):
         pg = AG(rng.fork("p%d" % k), data, names[k + 1:], opt={"pblock": rng.chance(0.5), "missing": 0.1, "sub": True})
         # a partial body: written against an unknown context; paths are evaluated by the reference at run time
         body = pg.nodes([ref.Scope(data, "partial")], 2)
+        if rng.chance(0.35):
+            # a fallback block for a partial that does not exist, before / between uses of @partial-block
+            fb = {"t": "partial", "name": "nosuch", "ctx": None, "hash": [], "block": [{"t": "text", "s": "d"}] + pg.nodes([ref.Scope(data, "partial")], 1)}
+            body.insert(rng.range(0, len(body)), fb)
+            if rng.chance(0.7):
+                body.append({"t": "pblock"})
         asts[names[k]] = [{"t": "text", "s": "<%d:" % k}] + body + [{"t": "text", "s": ">"}]
     ag = AG(rng.fork("main"), data, names, opt={"missing": 0.1, "sub": True})
     main = ag.nodes([ref.Scope(data, "root")], 3)
@@ -98,6 +104,10 @@ def generate(rng, n, tier="quick"):
     directed("root-visible", [("p", "[{{@root.a}}]"), ("main", "{{#each xs}}{{> p}}{{/each}}")], {"xs": [1], "a": "A"}, ("must", "[A]"))
     directed("block-default", [("main", "{{#> nosuch}}D{{x}}{{/nosuch}}")], {"x": 1}, ("must", "D1"))
     directed("unknown", [("main", "a{{> nosuch}}")], {}, ("musterr", ["PartialNotFound"]))
+    directed("fallback-then-block", [("layout", "[{{#> sidebar}}default {{side}}{{/sidebar}}|{{> @partial-block}}]"), ("main", "{{#> layout}}content {{title}}{{/layout}}")],
+             {"side": "S", "title": "T"}, ("must", "[default S|content T]"))
+    directed("fallback-nested", [("outer", "<{{> @partial-block}}>{{> @partial-block}}"), ("inner", "({{#> nosuch}}dflt {{n}}{{/nosuch}})"), ("main", "{{#> outer}}{{> inner}}{{/outer}}")],
+             {"n": 1}, ("must", "<(dflt 1)>(dflt 1)"))
     return out
 
 
